@@ -186,6 +186,11 @@ fn child_main(sc: &Scenario, fd: i32) -> ! {
     let _ = WORLD.set(w);
     assert!(pasfmt_orchestrator::verif_seam::install(Box::new(WorldRef(w))));
     assert!(pasfmt_core::verif_hooks::install(yield_hook, feature_hook));
+    // pasfmt-core's `std` is the shadow (shadowstd.rs): its locks, once-cells and atomics yield
+    // (VERIF_NO_STD_SHADOW=1 leaves those scheduling points out: for comparing coverage only)
+    if std::env::var_os("VERIF_NO_STD_SHADOW").is_none() {
+        verif_std::verif_install(yield_hook);
+    }
     // SAFETY: registering a plain extern "C" callback.
     unsafe {
         libc::atexit(at_exit);
